@@ -30,6 +30,11 @@ def _posterior(n=3, m=4):
     rng = np.random.default_rng(5); A = rng.standard_normal((m, n))
     x = Gaussian(0.2 * np.ones(n), 1.0, name='x'); y = Gaussian(LinearModel(A), 0.3, name='y')
     return JointDistribution(x, y)(y=A @ np.ones(n) + 0.1)
+def _regularized_posterior(n=3, m=4):
+    from cuqi.implicitprior import RegularizedGaussian
+    rng = np.random.default_rng(7); A = rng.standard_normal((m, n))
+    x = RegularizedGaussian(0.2 * np.ones(n), 1.0, constraint='nonnegativity', name='x'); y = Gaussian(LinearModel(A), 0.3, name='y')
+    return JointDistribution(x, y)(y=A @ np.ones(n) + 0.1)
 def _lmrf_posterior(n=4):
     rng = np.random.default_rng(6); A = rng.standard_normal((n, n))
     x = LMRF(0, 0.5, geometry=n, name='x'); y = Gaussian(LinearModel(A), 0.3, name='y')
@@ -46,6 +51,7 @@ EXP = {
     'NUTS(step_size)': lambda cb=None: EX.NUTS(_gauss_target(), max_depth=4, step_size=0.05, callback=cb),      # option given, then adapted by warm-up
     'LinearRTO': lambda cb=None: EX.LinearRTO(_posterior(), callback=cb),
     'UGLA': lambda cb=None: EX.UGLA(_lmrf_posterior(), callback=cb),
+    'RegularizedLinearRTO': lambda cb=None: EX.RegularizedLinearRTO(_regularized_posterior(), maxit=30, stepsize=1e-2, callback=cb),
 }
 
 
@@ -545,6 +551,7 @@ LEG = {
     'NUTS': lambda cb=None: LG.NUTS(_gauss_target(), x0=0.5 * np.ones(3), max_depth=4, adapt_step_size=0.35, callback=cb),      # (a fixed step size: with two burn-in steps the adapted one freezes the chain)
     'LinearRTO': lambda cb=None: LG.LinearRTO(_posterior(), x0=0.5 * np.ones(3), callback=cb),
     'UGLA': lambda cb=None: LG.UGLA(_lmrf_posterior(), x0=0.5 * np.ones(4), callback=cb),
+    'RegularizedLinearRTO': lambda cb=None: LG.RegularizedLinearRTO(_regularized_posterior(), x0=0.5 * np.ones(3), maxit=30, stepsize=1e-2, callback=cb),
 }
 
 
